@@ -416,6 +416,12 @@ ReadResult BinaryFileReader::internal_read_file(TopologyKernel &out)
 
     state_ = ReadState::ReadingChunks;
     while (stream_.remaining_bytes() > 0) {
+        if (reached_eof_chunk) {
+            // the end-of-file chunk is the last chunk of a file
+            state_ = ReadState::ErrorInvalidFile;
+            error_msg_ = "Data after the EOF chunk";
+            return ReadResult::InvalidFile;
+        }
         read_chunk();
         if (state_ != ReadState::ReadingChunks) {
             if (error_msg_.empty()) {
